@@ -714,15 +714,27 @@ func (e *Env) callExpr(n *ast.CallExpr) Val {
 			out.S = append(out.S, ite(c, a.S[i], b.S[i]))
 		}
 		return out
-	case "forall", "exists":
-		if len(n.Args) != 4 {
+	case "forall", "exists", "forallint", "existsint":
+		// forallint(k, P) / existsint(k, P): k ranges over every value of type int
+		if strings.HasSuffix(name, "int") {
+			if len(n.Args) != 2 {
+				specErrf("%s(k, P)", name)
+			}
+		} else if len(n.Args) != 4 {
 			specErrf("%s(k, lo, hi, P)", name)
 		}
 		id, ok := n.Args[0].(*ast.Ident)
 		if !ok {
 			specErrf("%s: first argument must be an identifier", name)
 		}
-		lo, hi := e.evalInt(n.Args[1]), e.evalInt(n.Args[2])
+		var lo, hi string
+		if strings.HasSuffix(name, "int") {
+			lo, hi = "(- 9223372036854775808)", "9223372036854775808"
+			n = &ast.CallExpr{Fun: n.Fun, Args: []ast.Expr{n.Args[0], nil, nil, n.Args[1]}}
+			name = strings.TrimSuffix(name, "int")
+		} else {
+			lo, hi = e.evalInt(n.Args[1]), e.evalInt(n.Args[2])
+		}
 		bv := quoteSym("q!" + id.Name)
 		ne := e.withBound(id.Name, intVal(bv))
 		var facts []string
@@ -926,11 +938,13 @@ func (e *Env) callExpr(n *ast.CallExpr) Val {
 	case "within":
 		argc(2)
 		a, b := e.eval(n.Args[0]), e.eval(n.Args[1])
-		return boolVal(or(eq(a.S[2], "0"), and(le(b.S[0], a.S[0]), le(add(a.S[0], a.S[2]), add(b.S[0], b.S[2])))))
+		ae, be := spanEnd(a), spanEnd(b)
+		return boolVal(or(eq(a.S[2], "0"), and(le(b.S[0], a.S[0]), le(ae, be))))
 	case "disjoint":
 		argc(2)
 		a, b := e.eval(n.Args[0]), e.eval(n.Args[1])
-		return boolVal(or(eq(a.S[2], "0"), eq(b.S[2], "0"), le(add(a.S[0], a.S[2]), b.S[0]), le(add(b.S[0], b.S[2]), a.S[0])))
+		ae, be := spanEnd(a), spanEnd(b)
+		return boolVal(or(eq(a.S[2], "0"), eq(b.S[2], "0"), le(ae, b.S[0]), le(be, a.S[0])))
 	case "eqbytes":
 		// eqbytes(a, alo, b, blo, n): a[alo+k] == b[blo+k] for k < n  (b evaluated in the same state)
 		if len(n.Args) != 5 {
@@ -1427,4 +1441,13 @@ func pickTrigger(body, bv string) string {
 		}
 	}
 	return best
+}
+
+// spanEnd: one past the last address of the backing array of a slice value (capacity times the element stride).
+func spanEnd(v Val) string {
+	stride := int64(1)
+	if sl, ok := v.T.Underlying().(*types.Slice); ok {
+		stride = int64(elemStride(sl.Elem()))
+	}
+	return add(v.S[0], mul(v.S[2], intLit(stride)))
 }
